@@ -9,6 +9,7 @@ import Driver.DStr
 import Driver.DLc
 import Driver.DScalars
 import Driver.D21
+import Driver.D22
 /-
 `model`: reads one case per line (`stream<TAB>field…`), prints the model's canonical answer.
 Imports model files only (no Mathlib), so it links as a native executable.
@@ -30,6 +31,7 @@ def dispatch (line : String) : String :=
     else if stream ∈ ["linecol"] then cLc stream fs
     else if stream ∈ ["scalars"] then cScalars stream fs
     else if stream ∈ ["guard", "sort", "fragcycle"] then c21 stream fs
+    else if stream ∈ ["unusedvars"] then c22 stream fs
     else "unknown-stream"
 
 partial def loop (h : IO.FS.Stream) (out : IO.FS.Stream) : IO Unit := do
